@@ -10,6 +10,8 @@ CLAUSES = {
     "outside-error": "with no substitute value an outside point raises ValueError and inside-only input does not",
     "newton-step": "on any non-degenerate affine coordinate grid one Newton step of bilin_inv from its initial guess lands exactly on the point (axis order, Jacobian, update formula)",
     "roundtrip": "ll2xy(xy2ll(x, y)) returns (x, y), or a point whose lon/lat agree with the given ones within the solver tolerance (loop stopped at its initial guess)",
+    "release-lonlat": "a release given by lon/lat starts at the grid position whose interpolated lon/lat are the given ones (to the solver tolerance)",
+    "output-lonlat": "lon/lat in every output record are the bilinear interpolation of the grid coordinates at the X, Y of the same record",
 }
 BOUNDS = {
     "quick": "sample2D: 3x3 and 4x3 fields, 2 points, all values/masks/positions/substitute values symbolic; bilin_inv: symbolic affine coefficients on a 4x5 array (maxiter=1); round trip: 4 concrete affine grids (axis-aligned, rotated, sheared, axis-swapped) x 2 subgrids on a 7x6 grid, every position of the valid region symbolic, default maxiter",
@@ -58,7 +60,52 @@ def scenarios(tier):
     for k, (name, _, _) in enumerate(affine_family(tier)):
         for sub in subs:
             out.append(dict(name=f"roundtrip-{name}-sub{'full' if sub is None else '_'.join(map(str, sub))}", fn="roundtrip", params=dict(fam=k, sub=sub, tier=tier), cost=10))
+    for k in ((1, 2) if q else (1, 2, 4, 7)):
+        out.append(dict(name=f"model-lonlat-{affine_family(tier)[k][0]}", fn="model_lonlat", params=dict(fam=k, tier=tier), cost=10))
     return out
+
+
+def model_lonlat(W, p):
+    """whole Model: release rows in lon/lat, real ROMS grid with affine coordinates, lon/lat written by the real Output"""
+    from harness.common import PLUG, T0, base_config, ovar, run_main
+
+    name, (l0, la, lb), (t0, ta, tb) = affine_family(p["tier"])[p["fam"]]
+    tmp = W.scratch()
+    lon = [[_q(W, l0 + la * i + lb * j) for i in range(L)] for j in range(M)]
+    lat = [[_q(W, t0 + ta * i + tb * j) for i in range(L)] for j in range(M)]
+    ones = [[1] * L for _ in range(M)]
+    gs = romsfile.grid_vars(L, M, 2, h=[[100] * L for _ in range(M)], mask=ones, pm=[[W.frac(1, 800)] * L for _ in range(M)], pn=[[W.frac(1, 800)] * L for _ in range(M)], lon=lon, lat=lat)
+    romsfile.write(W, tmp / "grid.nc", gs)
+    # the intended start position (inside the valid region of the full grid), given to the model as lon/lat
+    # (the round-trip scenarios quantify over positions; here the plumbing release -> state -> output is the subject)
+    x0 = W.frac(27, 10)
+    y0 = W.frac(23, 10)
+    u = W.real("u", -W.frac(1, 100), W.frac(1, 100))
+    lon0 = _q(W, l0) + _q(W, la) * x0 + _q(W, lb) * y0
+    lat0 = _q(W, t0) + _q(W, ta) * x0 + _q(W, tb) * y0
+    W.table(tmp / "r.rls", ["release_time", "lon", "lat", "Z"], [[W.dt(T0), lon0, lat0, 5]])
+    DTs = 600
+    ivars = dict(pid=ovar("i4"), X=ovar("f8"), Y=ovar("f8"), lon=ovar("f8"), lat=ovar("f8"))
+    cfg = base_config(W, start=T0, stop=T0 + 3 * DTs, dt=DTs, release_file=tmp / "r.rls", u=u,
+                      state=dict(instance_variables=dict(lon=float, lat=float), default_values=dict(lon=0, lat=0)),
+                      output=dict(filename=str(tmp / "out.nc"), output_period=DTs, instance_variables=ivars))
+    cfg["grid"] = dict(module="ladim.ROMS", filename=str(tmp / "grid.nc"))
+    cfg["ibm"] = dict()
+    run_main(W, cfg)
+    d = W.nc_read(tmp / "out.nc")
+    V = d["vars"]
+    X, Y, LO, LA = V["X"], V["Y"], V["lon"], V["lat"]
+    W.prove(len(X) == 3 and len(LO) == 3, "output-lonlat", dict(records=len(X)))
+    # release: lon/lat interpolated at the start position reproduce the given ones within the tolerance (or the position is exact)
+    lonx = _q(W, l0) + _q(W, la) * X[0] + _q(W, lb) * Y[0]
+    latx = _q(W, t0) + _q(W, ta) * X[0] + _q(W, tb) * Y[0]
+    W.prove(W.any([W.all([W.eq(X[0], x0), W.eq(Y[0], y0)]), W.lt((lonx - lon0) * (lonx - lon0) + (latx - lat0) * (latx - lat0), W.frac(1, 10 ** 7))]), "release-lonlat", dict(grid=name))
+    conds = []
+    for r in range(min(3, len(X))):
+        conds.append(W.eq(LO[r], _q(W, l0) + _q(W, la) * X[r] + _q(W, lb) * Y[r]))
+        conds.append(W.eq(LA[r], _q(W, t0) + _q(W, ta) * X[r] + _q(W, tb) * Y[r]))
+    W.prove(W.all(conds), "output-lonlat", dict(grid=name))
+    return (name,)
 
 
 def _q(W, f):
